@@ -17,8 +17,8 @@ import tempfile
 from pathlib import Path
 
 from harness import coq
-from harness.common import (VERIF, drain_failures, ensure_repo_on_path, install_failure_tap, parse_json_violations, pool_map,
-                            rng_for, run_cli, scratch_dir)
+from harness.common import (PY, REPO, VERIF, clean_env, drain_failures, ensure_repo_on_path, install_failure_tap, parse_json_violations,
+                            pool_map, rng_for, run_cli, scratch_dir)
 from harness.framework import Check
 from harness.props import orchhist_common as oc
 
@@ -49,6 +49,10 @@ def gen_history(r, proj: dict, n_ops: int) -> list:
         tag = re.sub(r"[^a-z]", "", path.split(".")[0])[-3:] or "x"
         items = oc.gen_items(r, path, tag)
         if base is not None and r.random() < 0.5:
+            # a rewrite that keeps the file's share of the cross-file plants (so that groups with >= 3 participants survive edits)
+            items += [list(x) for x in proj["contents"][base][1] if x[0] in oc.PLANT_KINDS]
+            r.shuffle(items)
+        elif base is not None and r.random() < 0.5:
             # a small edit: drop or add one item of the current version
             items = [list(x) for x in proj["contents"][base][1]]
             if items and r.random() < 0.6:
@@ -100,6 +104,14 @@ def gen_history(r, proj: dict, n_ops: int) -> list:
     elif templates < 0.3 and len(code_files()) >= 2:      # single-file call, then a batch elsewhere
         a, b = r.sample(code_files(), 2)
         hist += [[r.choice(["LintFile", "ApiFile"]), a], ["LintFiles", [b]]]
+    elif templates < 0.42 and len(code_files()) >= 3:     # the same file list in several orders (every participant first once)
+        cf = code_files()
+        for k in range(min(3, len(cf))):
+            ps = list(cf)
+            r.shuffle(ps)
+            first = cf[(k * 7 + len(cf) // 2) % len(cf)]
+            ps.remove(first)
+            hist.append(["LintFiles", [first] + ps])
     while len(hist) < n_ops:
         x = r.random()
         cf = code_files()
@@ -454,7 +466,7 @@ def phase_judge(cases, impls, queries, measured, wd: Path, per_shard=8, th=None)
 # ------------------------------------------------------------------ CLI level: hash seeds, argument order, side effects
 def _cli_project(seed: int, i: int, storage: str, big: bool = False):
     r = rng_for(seed, PROP, "cli", i)
-    proj = oc.gen_project(r, n_files=(5, 8), with_skips=False)
+    proj = oc.gen_project(r, n_files=(5, 8), with_skips=False, plant=0.85)
     proj["config"]["dry"]["storage_mode"] = storage
     if big:
         # --parallel falls back to the sequential path below 2 x workers files: make the process pool actually run
@@ -502,8 +514,8 @@ def _strip_const_refs(vs):
 
 def cli_jobs(seed: int, tier: str) -> list:
     jobs = []
-    n_seed = 3 if tier == "quick" else 12
-    seeds = ["0", "1", "2", "7", "42", "12345", "random"] if tier == "quick" else [str(x) for x in range(10)] + ["4294967295", "random", "random"]
+    n_seed = 2 if tier == "quick" else 12
+    seeds = ["0", "1", "42", "random"] if tier == "quick" else [str(x) for x in range(10)] + ["4294967295", "random", "random"]
     for i in range(n_seed):
         proj = _cli_project(seed, i, "memory")
         for cmd in (["dry"], ["stringly-typed"], ["magic-numbers"], ["nesting"]) if tier != "quick" else (["dry"], ["stringly-typed"]):
@@ -553,6 +565,100 @@ def judge_cli(chk: Check, obs: dict):
         else:
             chk.violation({"reason": ("results depend on PYTHONHASHSEED" if obs["kind"] == "hashseed" else "results depend on the order of the path arguments"),
                            "case": case})
+
+
+# ------------------------------------------------------------------ hash seeds through the library API (separate interpreter processes)
+HS_SEEDS = {"quick": ["0", "1", "7", "random"],
+            "thorough": [str(x) for x in range(8)] + ["42", "12345", "4294967295", "random", "random"]}
+HS_CHUNK = 6
+
+
+def hashseed_cases(seed: int, n: int) -> list:
+    """planted projects (cross-file groups with >= 3 files / >= 6 sites) and, for the explicit-list call, a shuffled file order"""
+    out = []
+    for i in range(n):
+        r = rng_for(seed, PROP, "hs", i)
+        proj = oc.gen_project(r, n_files=(5, 9), with_skips=(i % 3 == 0), plant=0.85)
+        files = [p for pid, p in enumerate(proj["paths"]) if str(pid) in proj["fs0"] and p not in (oc.CONFIG_NAME, oc.IGNORE_NAME)]
+        r.shuffle(files)
+        out.append({"i": i, "proj": proj, "order": files})
+    return out
+
+
+def hashseed_job(job) -> dict:
+    """one interpreter process under PYTHONHASHSEED = hs linting a chunk of projects (harness/props/c08_hashseed.py)"""
+    import subprocess
+    cases, hs = job
+    with scratch_dir("tv-c08-hs-") as d:
+        for c in cases:
+            pd = d / f"p{int(c['i']):04d}"
+            root = pd / "proj"
+            root.mkdir(parents=True)
+            oc.write_project(root, c["proj"], c["proj"]["fs0"])
+            (pd / "order.json").write_text(json.dumps(c["order"]))
+        home, tmp = d / "home", d / "tmp"
+        home.mkdir()
+        tmp.mkdir()
+        env = clean_env(home)
+        env.update({"PYTHONPATH": f"{REPO}:{VERIF}", "PYTHONHASHSEED": hs, "TMPDIR": str(tmp)})
+        try:
+            p = subprocess.run([PY, "-P", "-m", "harness.props.c08_hashseed", str(d)], cwd=str(d), env=env, capture_output=True, timeout=1200)
+            rc, so, se = p.returncode, p.stdout.decode("utf-8", "replace"), p.stderr.decode("utf-8", "replace")
+        except subprocess.TimeoutExpired:
+            rc, so, se = 124, "", "TIMEOUT"
+        try:
+            doc = json.loads(so)
+        except json.JSONDecodeError:
+            doc = None
+        return {"hs": hs, "rc": rc, "projects": (doc or {}).get("projects"), "stderr": se[-400:], "ids": [f"p{int(c['i']):04d}" for c in cases]}
+
+
+def hashseed_jobs(cases: list, tier: str) -> list:
+    return [(cases[k:k + HS_CHUNK], hs) for k in range(0, len(cases), HS_CHUNK) for hs in HS_SEEDS["quick" if tier == "quick" else "thorough"]]
+
+
+def _max_refs(vs) -> int:
+    """largest number of cross-references in one message (', '-separated after 'Also ...: ')"""
+    best = 0
+    for v in vs or []:
+        m = re.search(r"Also (?:found|called|compared) in: (.*)", str(v[4]))
+        if m:
+            best = max(best, m.group(1).count(", ") + 1)
+    return best
+
+
+def judge_hashseed(chk: Check, cases: list, jobs: list, results: list):
+    by_chunk: dict = {}
+    for (chunk, hs), res in zip(jobs, results):
+        by_chunk.setdefault(tuple(str(c["i"]) for c in chunk), [chunk, []])[1].append(res)
+    for chunk, runs in by_chunk.values():
+        for c in chunk:
+            pid = f"p{int(c['i']):04d}"
+            payload = {"hashseed_case": {"i": c["i"], "proj": c["proj"], "order": c["order"]}}
+            obs = []
+            for res in runs:
+                rec = (res["projects"] or {}).get(pid)
+                if rec is None or rec.get("error") or res["rc"] != 0:
+                    chk.violation({"reason": f"linting under PYTHONHASHSEED={res['hs']} failed (rc={res['rc']}): " + str((rec or {}).get("error") or res["stderr"])[:300],
+                                   "case": payload})
+                    continue
+                obs.append((res["hs"], rec))
+            chk.dist("hashseed_api_projects")
+            for fam, nf, ns in c["proj"].get("planted", []):
+                chk.dist(f"planted:{fam}:files{'>=3' if nf >= 3 else '<3'}:sites{'>=6' if ns >= 6 else '<6'}")
+            if obs:
+                chk.dist("max_cross_refs_in_one_message:%s" % min(_max_refs(obs[0][1]["dir"]), 6))
+            chk.count(["hs", c["proj"]["paths"], c["proj"]["contents"], c["order"]],
+                      bool(obs) and any(oc.kind_of(v[0], v[4]) is not None for v in obs[0][1]["dir"]))
+            for hs, rec in obs[1:]:
+                chk.traces_validated += 1
+                for mode in ("dir", "files"):
+                    a, b = obs[0][1][mode], rec[mode]
+                    if a != b:
+                        chk.violation({"reason": "results depend on PYTHONHASHSEED (library API, separate interpreter processes): the multisets of violations differ",
+                                       "mode": mode, "hashseed_a": obs[0][0], "hashseed_b": hs,
+                                       "only_a": [v for v in a if v not in b][:4], "only_b": [v for v in b if v not in a][:4], "case": payload})
+                        break
 
 
 # ------------------------------------------------------------------ suppression comments changed between runs (validated, not modelled)
@@ -697,13 +803,17 @@ def run(tier: str, seed: int, replay: str | None = None) -> int:
     chk.build(["theories/Props/C08.v"], ["OrchHistGen"], known_v=["theories/Props/C08Known.v"])
     phases["build"] = round(_t.time() - t0, 1)
     scale = chk.budget_scale()
-    n = (85 if tier == "quick" else 1000) * scale
+    n = (70 if tier == "quick" else 1000) * scale
     dcases = directive_cases(seed, 14 if tier == "quick" else 150)
     n = min(n, int(os.environ.get("VERIF_CASES_CAP", n)))   # self-test runs on mutated copies use a smaller budget
     max_ops = 12 if tier == "quick" else 16
+    hcases = hashseed_cases(seed, 12 if tier == "quick" else 200)
     if replay:
+        hcases = []
         rc = json.loads(Path(replay).read_text())["violation"].get("case", {})
-        if "directive_case" in rc:
+        if "hashseed_case" in rc:
+            cases, cjobs, dcases, hcases = [], [], [], [rc["hashseed_case"]]
+        elif "directive_case" in rc:
             cases, cjobs, dcases = [], [], [rc["directive_case"]]
         elif "proj" in rc:
             cases, cjobs = [{"i": "replay", "proj": rc["proj"], "history": rc["history"]}], []
@@ -716,12 +826,16 @@ def run(tier: str, seed: int, replay: str | None = None) -> int:
         if oc.IGNORE_NAME not in c["proj"]["paths"]:
             _add_ignore_path(c)
     t1 = _t.time()
-    impls = pool_map(run_impl, cases, procs=8)
+    impls = pool_map(run_impl, cases, procs=oc.PROCS)
     phases["histories_on_implementation"] = round(_t.time() - t1, 1)
-    dres = pool_map(run_directive_case, dcases, procs=8) if dcases else []
+    dres = pool_map(run_directive_case, dcases, procs=oc.PROCS) if dcases else []
     t1 = _t.time()
-    cli_obs = pool_map(cli_job, cjobs, procs=8, chunks=1) if cjobs else []
+    cli_obs = pool_map(cli_job, cjobs, procs=oc.PROCS, chunks=1) if cjobs else []
     phases["cli_runs"] = round(_t.time() - t1, 1)
+    t1 = _t.time()
+    hjobs = hashseed_jobs(hcases, tier)
+    hres = pool_map(hashseed_job, hjobs, procs=oc.PROCS, chunks=1) if hjobs else []
+    phases["hashseed_api_runs"] = round(_t.time() - t1, 1)
     ok_idx = [i for i, im in enumerate(impls) if not im["error"]]
     for i, im in enumerate(impls):
         if im["error"]:
@@ -737,7 +851,7 @@ def run(tier: str, seed: int, replay: str | None = None) -> int:
             queries = phase_queries(sub_c, sub_i, wd, th=th)
             phases["coq_queries"] = round(_t.time() - t1, 1)
             t1 = _t.time()
-            measured = pool_map(measure_queries, [(c["proj"], q) for c, q in zip(sub_c, queries)], procs=8)
+            measured = pool_map(measure_queries, [(c["proj"], q) for c, q in zip(sub_c, queries)], procs=oc.PROCS)
             phases["report_measurements"] = round(_t.time() - t1, 1)
             t1 = _t.time()
             vs = phase_judge(sub_c, sub_i, queries, measured, wd, th=th)
@@ -762,6 +876,8 @@ def run(tier: str, seed: int, replay: str | None = None) -> int:
         for o in ops:
             chk.dist("op:" + o[0])
         chk.dist("storage:" + case["proj"]["config"]["dry"]["storage_mode"])
+        for fam, nf, ns in case["proj"].get("planted", []):
+            chk.dist(f"planted:{fam}:files{'>=3' if nf >= 3 else '<3'}:sites{'>=6' if ns >= 6 else '<6'}")
         chk.sample({"paths": case["proj"]["paths"], "history": case["history"],
                     "last_call_used_vs_fresh": [len(impl["impl"][lint_steps[-1]]), len(impl["fresh"][lint_steps[-1]])] if lint_steps else None}, 3)
         payload = {"proj": case["proj"], "history": case["history"]}
@@ -830,6 +946,7 @@ def run(tier: str, seed: int, replay: str | None = None) -> int:
         chk.count(["directive", dc["files"], dc["init"], dc["steps"]], not dr["error"] and any(r_["used"] for r_ in dr["runs"]))
         chk.dist("directive_scenarios")
         judge_directive(chk, dc, dr)
+    judge_hashseed(chk, hcases, hjobs, hres)
     for obs in cli_obs:
         chk.count(["cli", obs["kind"], obs["args"], [r["argv"] for r in obs["runs"]], [r["env"] for r in obs["runs"]]],
                   any(r["violations"] for r in obs["runs"]))
